@@ -243,9 +243,10 @@ RecvResult(D, p, full, ents, X, Y, Z) ==
   IN IF ~ValidXY(s, X, Y) THEN <<"none">>
      ELSE LET t == Stage2(D, s, X, Y)
           IN IF ~ValidZ(t, Z) THEN <<"none">> ELSE <<"ok", Stage3(t, Z)>>
+\* (deviations already recorded are not examined again)
 EffRecv(D, p, full, ents, X, Y, Z, r) ==
-  IF D = {} \/ RecvResult({}, p, full, ents, X, Y, Z) = <<"ok", r>> THEN {}
-  ELSE {d \in D : RecvResult(D \ {d}, p, full, ents, X, Y, Z) # <<"ok", r>>}
+  IF D \subseteq dev \/ RecvResult({}, p, full, ents, X, Y, Z) = <<"ok", r>> THEN {}
+  ELSE {d \in D \ dev : RecvResult(D \ {d}, p, full, ents, X, Y, Z) # <<"ok", r>>}
 
 ReceiveCore(D, p, full, ents, s, t, X, Y, Z) ==
   /\ ValidZ(t, Z)
@@ -267,7 +268,7 @@ AddBlock(D, c) ==
   /\ bs' = bs \cup {c}
   /\ LET r == AddRes(D, c)
      IN /\ q' = r
-        /\ dev' = dev \cup (IF D = {} \/ AddRes({}, c) = r THEN {} ELSE {d \in D : AddRes(D \ {d}, c) # r})
+        /\ dev' = dev \cup (IF D \subseteq dev \/ AddRes({}, c) = r THEN {} ELSE {d \in D \ dev : AddRes(D \ {d}, c) # r})
   /\ out' = NoOut /\ ov' = NoOv
   /\ UNCHANGED <<cfg, ledger, ghost>>
 
@@ -282,7 +283,7 @@ Envelope(D, p) ==
      IN /\ ledger' = [ledger EXCEPT ![p] = r.L]
         /\ ghost'  = [ghost EXCEPT ![p] = r.G]
         /\ out'    = r.out
-        /\ dev' = dev \cup (IF D = {} \/ EnvRes({}, p) = r THEN {} ELSE {d \in D : EnvRes(D \ {d}, p) # r})
+        /\ dev' = dev \cup (IF D \subseteq dev \/ EnvRes({}, p) = r THEN {} ELSE {d \in D \ dev : EnvRes(D \ {d}, p) # r})
   /\ q' = [q EXCEPT ![p] = EmptyQ]
   /\ ov' = NoOv
   /\ UNCHANGED <<cfg, bs>>
